@@ -172,11 +172,11 @@ def run_group(item):
                             'A': [[0, 0, 0, 0, 0, 0, 0, 0]], 'B': [], 'first': fname,
                             'note': 'pipeline raised %s: %s' % (type(exc).__name__, str(exc)[:200])})
     # Position within Prefix and Size (C14), same parameters, one job
-    if not ed and meas in ('JACCARD', 'COSINE', 'DICE', 'OVERLAP'):
+    if meas in ('JACCARD', 'COSINE', 'DICE', 'OVERLAP', 'EDIT_DISTANCE'):
         frows = {}
         for f in ('POSITION', 'PREFIX', 'SIZE'):
-            cf = dict(base, kind='ftab', api=f + '.filter_tables', filt=f, op='>=', sc=0, n_jobs=1,
-                      tok=dict(base['tok'], rs=1))
+            cf = dict(base, kind='ftab', api=f + '.filter_tables', filt=f, op='<=' if ed else '>=', sc=0, n_jobs=1,
+                      tok=dict(base['tok'], rs=0 if ed else 1))
             _, _, _, frows[f] = rows_of(cf, km)
         if all(v is not None for v in frows.values()):
             out['laws'].append({'law': 'KEYSUB', 'prop': 'C14', 'meas': meas, 'op': '>=', 't': base['t'],
